@@ -136,7 +136,7 @@ type c14case struct {
 	imm   string
 }
 
-var c14Forms = []string{"direct", "derived-table", "cte", "row-subquery", "immediate", "nested-from", "join-side", "awaited-by-outer-query"}
+var c14Forms = []string{"direct", "derived-table", "cte", "row-subquery", "immediate", "nested-from", "join-side", "awaited-by-outer-query", "join-right-side"}
 
 type c14 struct {
 	tier  string
@@ -191,7 +191,7 @@ func (p *c14) Init(tier string) {
 			lists[j], lists[j-1] = lists[j-1], lists[j]
 		}
 	}
-	for _, form := range []int{0, 1, 2, 3, 5, 6, 7} {
+	for _, form := range []int{0, 1, 2, 3, 5, 6, 7, 8} {
 		for _, l := range lists {
 			for rows := 0; rows <= maxRows; rows++ {
 				if form != 0 && (rows == 0 || len(l) > 2) {
@@ -266,6 +266,8 @@ func (p *c14) build(c *c14case) (mk func() map[string]any, sql string, argCol st
 		sql = "SELECT " + list + " FROM m"
 	case 6:
 		sql = "SELECT * FROM (SELECT " + list + ", id AS jid FROM t) x JOIN u y ON x.jid = y.rid"
+	case 8:
+		sql = "SELECT * FROM u y JOIN (SELECT " + list + ", id AS jid FROM t) x ON x.jid = y.rid"
 	case 7:
 		var outer []string
 		for _, k := range c.items {
@@ -483,7 +485,7 @@ func (p *c14) RunCase(i int) *core.CaseResult {
 		}
 		got := gq.RenderRows(o.Rows)
 		outcomes[strings.Join(got, ";")] = true
-		if c.form == 6 {
+		if c.form == 6 || c.form == 8 {
 			// join side: the event log above decides (invoked once per row, awaited); the rows must
 			// at least be plain data (no unresolved slot)
 			if s := gq.Plain(o.Rows); s != "" {
@@ -525,7 +527,7 @@ func (p *c14) RunCase(i int) *core.CaseResult {
 
 func (p *c14) Meta() core.Meta {
 	return core.Meta{
-		Rule: "one case per (select list of 1-2 (thorough 3) distinct items over {id, HSLOW, ASYNC.HSLOW, ASYNC.HFAST, SPINASYNC.HSLOW, SPIN.HSPIN, ONCE.HONCE, ONCE.HNILONCE (returns NULL), ASYNC.HMID, ASYNC.HFAILODD, SPINASYNC.HPANICODD, ASYNC.HPANICODD (calls that fail or panic on odd rows)}, form in {direct, derived table, CTE, row-scoped subquery, nested FROM (array of arrays), derived table as join side}, 0-2 (thorough 3) rows) plus immediate functions under ASYNC/SPIN/SPINASYNC (built-in ones and one registered after queries have already run); each case = stateless exploration of every schedule with <= 2 (thorough 3) preemptions of the real engine (library go statements, mutex / wait-group operations and the harness functions' latency points are scheduling points); oracle on every schedule from the event log and the result. non-trivial = more than one schedule was executed",
+		Rule: "one case per (select list of 1-2 (thorough 3) distinct items over {id, HSLOW, ASYNC.HSLOW, ASYNC.HFAST, SPINASYNC.HSLOW, SPIN.HSPIN, ONCE.HONCE, ONCE.HNILONCE (returns NULL), ASYNC.HMID, ASYNC.HFAILODD, SPINASYNC.HPANICODD, ASYNC.HPANICODD (calls that fail or panic on odd rows)}, form in {direct, derived table, CTE, row-scoped subquery, nested FROM (array of arrays), derived table as left / right join side, derived table awaited by the outer query}, 0-2 (thorough 3) rows) plus immediate functions under ASYNC/SPIN/SPINASYNC (built-in ones and one registered after queries have already run); each case = stateless exploration of every schedule with <= 2 (thorough 3) preemptions of the real engine (library go statements, mutex / wait-group operations and the harness functions' latency points are scheduling points); oracle on every schedule from the event log and the result. non-trivial = more than one schedule was executed",
 		Assumptions: []string{
 			"harness functions are deterministic and model latency only by yielding to the scheduler; their results do not depend on the schedule",
 			"scheduling points at sync operations, go statements, thread exit and harness yields (sufficient for race-free executions, DRF-SC; races are C13's matter)",
